@@ -17,6 +17,7 @@ type Abs struct {
 	T string  `json:"t"`
 	V any     `json:"-"`
 	Q []int64 `json:"q,omitempty"`
+	S string  `json:"s,omitempty"` // float without a small dyadic form: its shortest decimal text
 	P []int   `json:"p,omitempty"`
 	K [][]int `json:"k,omitempty"`
 	// decoded children
@@ -31,13 +32,14 @@ func (a *Abs) UnmarshalJSON(b []byte) error {
 		T string          `json:"t"`
 		V json.RawMessage `json:"v"`
 		Q []int64         `json:"q"`
+		S string          `json:"s"`
 		P []int           `json:"p"`
 		K [][]int         `json:"k"`
 	}
 	if err := json.Unmarshal(b, &raw); err != nil {
 		return err
 	}
-	a.T, a.Q, a.P, a.K = raw.T, raw.Q, raw.P, raw.K
+	a.T, a.Q, a.P, a.K, a.S = raw.T, raw.Q, raw.P, raw.K, raw.S
 	switch raw.T {
 	case "bool":
 		return json.Unmarshal(raw.V, &a.B)
@@ -78,6 +80,10 @@ func ints(s string) []int {
 }
 
 func (a *Abs) float() float64 {
+	if len(a.Q) < 2 {
+		f, _ := strconv.ParseFloat(a.S, 64)
+		return f
+	}
 	f := float64(a.Q[0])
 	for i := int64(0); i < a.Q[1]; i++ {
 		f /= 2
